@@ -99,8 +99,6 @@ A cell is a position rounded to 0.01° (the rounding is the caller's: `key`), a 
 there. The Rust arithmetic is written out: `u32` operations panic on overflow (`overflow-checks = true` in every profile)
 unless they are the saturating ones. -/
 
-/-- `u32::MAX` (a notation, so that the arithmetic tactics see the literal) -/
-notation "u32Max" => (4294967295 : Nat)
 
 structure Cell where
   key : Int × Int            -- (round(lat·100), round(lon·100))
@@ -131,6 +129,11 @@ def cellColourOld (seen : Nat) : Res Nat :=
   if seen * 50 > u32Max then .panic "coverage.rs: attempt to multiply with overflow"
   else if 100 + seen * 50 > u32Max then .panic "coverage.rs: attempt to add with overflow"
   else .ok (if 100 + seen * 50 > 255 then 255 else 100 + seen * 50)
+
+/-- `Stats::update`'s counter of newly added aircraft in `u32` arithmetic as written today (`saturating_add(1)`) -/
+def totalIncr (total : Nat) : Res Nat := .ok (min (total + 1) u32Max)
+/-- the same before the repair (`+= 1`, checked) -/
+def totalIncrOld (total : Nat) : Res Nat := if total + 1 > u32Max then .panic "stats.rs: attempt to add with overflow" else .ok (total + 1)
 
 /-! ## the map projection (`Settings::to_xy`), over any number type -/
 
